@@ -32,7 +32,7 @@ func init() {
 		Technique: "term agreement between witnessed key and storage key, must-facts at the stores (state guards), exit-fact equivalences (both representations touched together), dispatch coverage of the state enumeration",
 		Explanation: "D1 the key under which a candidate is stored is the witnessed term (AddPeer: nodeInfo[2:35], AddNode: n.Key, UpdateState: publicKey) and both witnesses are required (C03). D2 the state stored on add is Online. " +
 			"D3 every effect of updateCandidateState happens under state ∈ {Online, Offline, Maintenance} (= the declared enumeration), the default arm cannot return. D4 removeFromNetmap deletes 'candidate'‖k and '2'‖k with the same k on every path; updateNetmapState rewrites every representation that is present (exit facts: absent ∨ rewritten) as the stored record with only State replaced by the requested state, and cannot return normally with no write. " +
-			"D5 exactly one UpdateStateSuccess(key, state) per successful update, AddPeerSuccess/AddNode exactly with their store, no other emitters. D0 every effect of AddPeer/AddPeerIR/AddNode/UpdateState/UpdateStateIR/DeleteNode is gated by the documented witnesses (the gate rule of C03).",
+			"D5 exactly one UpdateStateSuccess(key, state) per successful update, AddPeerSuccess/AddNode exactly with their store, no other emitters. D0 every effect of AddPeer/AddPeerIR/AddNode/UpdateState/UpdateStateIR/DeleteNode is gated by the documented witnesses (the gate rule of C03). R6: every normal return of AddPeer/AddPeerIR/AddNode has stored the candidate.",
 		NotCovered: "agreement with a reference model over operation histories; well-formedness of the node BLOB.",
 		Run:        runC07,
 	})
@@ -41,8 +41,8 @@ func init() {
 		Level:     "other",
 		Technique: "divisor-non-zero rule over storage writers (must-facts at every writer of the count key), sibling agreement of the retention bounds read off the loop header as canonical linear terms, must-facts at the ring index computation",
 		Explanation: "D1 NewEpoch and Snapshot compute '% stored snapshotCount'; every writer of that key stores a value established > 0 (so any accepted count leaves the contract able to tick). D2 NewEpoch keeps the per-epoch lists of epochs (e−N, e] (drops e−N under e > N); the drop loop of UpdateSnapshotCount covers exactly [cur−old+1, cur−new] (bounds read off the loop as linear terms over the stored epoch, the stored old count and the parameter). " +
-			"D3 Snapshot establishes 0 ≤ diff < count before indexing the ring; ListNodesEpoch scans 'p'‖BE4(epoch) with the same fixed-width encoder that NewEpoch and dropNetmap use. D4 every normal path of UpdateSnapshotCount on which the window shrinks runs the drop loop (skip-edge rule); writer, reader and dropper of the per-epoch lists use one structurally identified fixed-width encoder. M: Snapshot reads slot (current − diff + count) % count and faults only for diff outside 0 … count−1; NewEpoch advances the ring index by one modulo count.",
-		NotCovered: "correctness of the legacy ring rotation (moveSnapshot index arithmetic, modular positions after repeated resizes): relations between run-time integers, not decidable by this family — declared not applicable for that clause.",
+			"D3 Snapshot establishes 0 ≤ diff < count before indexing the ring; ListNodesEpoch scans 'p'‖BE4(epoch) with the same fixed-width encoder that NewEpoch and dropNetmap use. D4 every normal path of UpdateSnapshotCount on which the window shrinks runs the drop loop (skip-edge rule); writer, reader and dropper of the per-epoch lists use one structurally identified fixed-width encoder. M: Snapshot reads slot (current − diff + count) % count and faults only for diff outside 0 … count−1; NewEpoch advances the ring index by one modulo count. R6 ring-move: a single resize moves and frees exactly the slots of the in-place algorithm — grow: slot t := slot t−(new−old) for t = new−1 … current+1+(new−old) downwards, slots current+1 … min(current+1+(new−old), old)−1 freed; shrink: slot t := slot t+(old−new) for t = current+1 … new−1 (current < new) or slot t := slot t+(current−new+1) for t = 0 … new−1 with current := new−1 (current ≥ new), slots new … old−1 freed — compared as canonical linear terms under the branch facts and the order axioms of the integers.",
+		NotCovered: "what the ring holds after sequences of resizes and ticks (modular positions over histories): a relation between run-time integers over time, not decidable by this family; the per-call slot sets of a single resize are decided (ring-move).",
 		Run:        runC08,
 	})
 }
@@ -525,6 +525,8 @@ func runC07(cx *CheckCtx) {
 		na := notifyArgs(notif)
 		cx.decide(len(na) >= 1 && na[0] == k, "add", key+"/notify-arg", "the notification names the stored key", sp.notify+" names "+termList(na), notif.Where(w))
 		checkNotifyEquiv(cx, a, key+"/"+sp.notify, notif, put)
+		// presence: there is no successful add that stores nothing (a node that re-announces itself comes back Online)
+		cx.decide(executedAtEveryExit(a, put), "add", key+"/always", "every normal return has stored the candidate", sp.name+" can return normally without having stored the candidate: a node that was switched to Maintenance (or whose record differs only in state) stays as it was although its add succeeded", put.Where(w))
 		cx.count("add_methods", 1)
 	}
 	cx.floor("add_methods", 3)
@@ -896,11 +898,16 @@ func runC08(cx *CheckCtx) {
 				}
 				ltIdCount := a.litLt(idRead, count)
 				ltOldCount := a.litLt(old, count) // growing: id < old (induction hypothesis) < count
+				// the tests may be spelled `old <= count` (old ≠ count is established) or `id+1 <= count`
+				ax := a.orderAxioms([2]*Term{old, count}, [2]*Term{idRead, count})
 				for _, ex := range a.Exits() {
-					if !a.holdsAt(ex.State, a.eLit(curPut), ltIdCount, ltOldCount) {
+					if !a.entails(ex.State, ax, a.eLit(curPut), ltIdCount, ltOldCount) {
 						okRange = false
 					}
 				}
+			}
+			if idRead != nil && old != nil {
+				checkRingMove(cx, a, m, count, old, idRead, curPut)
 			}
 			cx.decide(okRange, "ring-index", "netmap.UpdateSnapshotCount/in-range", "at every exit the stored ring index is < the new count (rewritten to count − 1, or id < count established, or the ring grew)", "UpdateSnapshotCount can return with snapshotCurrent ≥ the new count: the current map's slot is deleted/out of range, netmap() and snapshot(0) answer with nothing or another epoch's map", w.pos(m.Fn.Pos()))
 			// the count is written before it is used and the old one read before the write
